@@ -198,8 +198,31 @@ func runC03(r *rep.Report, thorough bool) error {
 		if err != nil {
 			return err
 		}
+		// the end-to-end theorem (Props/C03E2E.lean) on this program: is it inside the fragment, are
+		// the dumped values well-typed — then the theorem says the documents inhabit their types
+		var tvals []map[string]any
+		for _, ln := range lns {
+			tvals = append(tvals, map[string]any{"type": map[string]any{"k": "ref", "q": a.Env.PkgPath + "." + ln.Type}, "val": ln.Val})
+		}
+		frag, err := d.Call(map[string]any{"op": "c03.fragment", "env": a.Env, "wrappers": wrapperSets(a, l.Mod.Root), "values": tvals})
+		if err != nil {
+			return err
+		}
+		inFrag, _ := frag["inFragment"].(bool)
+		if inFrag {
+			r.Hist("end-to-end-theorem:program-inside-the-fragment")
+		} else {
+			r.Hist("end-to-end-theorem:program-outside-the-fragment")
+		}
 		for i, ok := range reply["inhabits"].([]any) {
 			ln := lns[i]
+			if ht, _ := frag["hasType"].([]any)[i].(bool); inFrag && ht {
+				r.Hist("end-to-end-theorem:document-covered")
+				if !ok.(bool) {
+					r.Disagree(rep.Disagreement{Tie: "c03.end-to-end-theorem-vs-real-document", Input: map[string]any{"case": id, "type": ln.Type, "doc": ln.Doc, "sources": a.Case.Sources()},
+						Model: "theorem C03_end_to_end: the document of a well-typed value of a program in the fragment inhabits its type", Impl: "the real document does not"})
+				}
+			}
 			nontrivial := strings.ContainsAny(ln.Doc, "[{") && len(ln.Doc) > 20
 			r.Case(map[string]any{"case": id, "type": ln.Type, "doc": ln.Doc}, nontrivial)
 			if !ok.(bool) {
